@@ -88,7 +88,8 @@ func (pl *Playlist) M3u8(token string) ([]byte, error) {
 		}
 	}
 
-	return w.Bytes(), nil
+	// w 归还到池后会被其他请求复用，返回的必须是副本
+	return append([]byte(nil), w.Bytes()...), nil
 }
 
 // Segment 获取 segment
